@@ -249,6 +249,14 @@ func (t *UriType) Default() px.Type {
 
 func (t *UriType) Equals(other interface{}, g px.Guard) bool {
 	if ot, ok := other.(*UriType); ok {
+		if tu, ok := t.parameters.(*url.URL); ok {
+			if ou, ok := ot.parameters.(*url.URL); ok {
+				// two URLs are the same parameter when they have the same parts, which is what Parameters(), the text and
+				// the hash key of the type hold and what a URL is compared to a Hash by: not the case of the host, the
+				// escaped form of the path, or a '?' that no query follows
+				return urlToHash(tu).Equals(urlToHash(ou), g)
+			}
+		}
 		switch t.parameters.(type) {
 		case *UndefValue:
 			return undef.Equals(ot.parameters, g)
